@@ -144,7 +144,7 @@ class LasReader:
             #   - the user asked for them not to be read during the opening phase.
             #   - and/or the stream is not seekable, thus they could not be read during opening phase
             #
-            if self.point_source.source.seekable():
+            if getattr(self.point_source.source, "seekable", lambda: False)():
                 self.read_evlrs()
             else:
                 # In that case we are still going to
